@@ -50,6 +50,19 @@ struct ToInt
 };
 static_assert(std::is_trivially_copyable_v<ToInt> && sizeof(ToInt) == sizeof(int32_t));
 
+// trivially copyable class whose conversion to the stored type tells how the source item was passed: as a non-const
+// lvalue, as a const lvalue or as an rvalue. The stored value must be T(source item) for the item as the source form
+// yields it: ranges and iterators over mutable lvalues yield S&, const ranges / const_iterators / pointers to const
+// yield const S&, rvalue ranges, move_iterators and ranges that generate their items yield S&&.
+struct RefQual
+{
+    int32_t v;
+    operator int32_t() & { return v + 507; }
+    operator int32_t() const& { return v + 7; }
+    operator int32_t() && { return v + 1007; }
+};
+static_assert(std::is_trivially_copyable_v<RefQual> && sizeof(RefQual) == sizeof(int32_t));
+
 // pointer conversion that adjusts the address: Derived* -> second base*
 struct Base1
 {
@@ -124,6 +137,8 @@ S make_src(int k)
         return std::string(literal(k)) + std::to_string(k);
     else if constexpr (std::is_same_v<S, ToInt>)
         return ToInt{k};
+    else if constexpr (std::is_same_v<S, RefQual>)
+        return RefQual{k};
     else if constexpr (std::is_same_v<S, Derived*>)
         return (k % 5 == 0) ? nullptr : &g_derived_pool[k % 16];
     else if constexpr (std::is_same_v<S, Counted>)
@@ -349,6 +364,12 @@ Outcome run_cell(std::vector<int> keys)
     {
         if constexpr (std::is_same_v<S, MoveOnly>)
             expected.push_back(T(keys[i]));
+        else if constexpr (std::is_same_v<S, RefQual>)
+        {
+            constexpr bool as_rvalue = is_moving_form(F) || F == F_LAZY_RANGE;
+            constexpr bool as_const = F == F_VECTOR_CONST_LVALUE || F == F_POINTER || F == F_VECTOR_CONST_ITERATOR || F == F_DEQUE_CONST_ITERATOR || F == F_COUNTING_ITERATOR;
+            expected.push_back(static_cast<T>(src[i].v + (as_rvalue ? 1007 : as_const ? 7 : 507)));
+        }
         else
             expected.push_back(convert<T, S>(src[i]));
     }
@@ -407,6 +428,15 @@ Outcome run_cell(std::vector<int> keys)
             s.copied_from = 0;
             s.moved_from = 0;
         }
+
+    if constexpr (std::is_same_v<S, RefQual> && F == F_DEQUE_CONST_ITERATOR)
+    {
+        // libstdc++'s own std::uninitialized_copy_n reads the items of a deque::const_iterator through non-const
+        // pointers (its segmented copy for trivial targets): "T(source item)" is what the standard algorithm stores
+        std::vector<T> reference(n);
+        std::uninitialized_copy_n(deq.cbegin(), n, reference.data());
+        for (std::size_t i = 0; i < n; ++i) expected[i] = reference[i];
+    }
 
     // --- the call under test -------------------------------------------------------------------------------
     if constexpr (F == F_VECTOR_LVALUE)
@@ -474,7 +504,12 @@ Outcome run_cell(std::vector<int> keys)
                 std::size_t i = 0;
                 for (auto& s : lst)
                 {
-                    if (!(convert<T, S>(s) == expected[i]) && !std::is_same_v<T, bool>) fail("lvalue list source item " + std::to_string(i) + " was modified");
+                    if constexpr (std::is_same_v<S, RefQual>)
+                    {
+                        if (s.v != keys[i]) fail("lvalue list source item " + std::to_string(i) + " was modified");
+                    }
+                    else if (!(convert<T, S>(s) == expected[i]) && !std::is_same_v<T, bool>)
+                        fail("lvalue list source item " + std::to_string(i) + " was modified");
                     ++i;
                 }
             }
@@ -486,7 +521,7 @@ Outcome run_cell(std::vector<int> keys)
                     bool same_item = true;
                     if constexpr (std::is_arithmetic_v<S> || std::is_enum_v<S> || std::is_pointer_v<S>)
                         same_item = src[i] == before[i];
-                    else if constexpr (std::is_same_v<S, ToInt>)
+                    else if constexpr (std::is_same_v<S, ToInt> || std::is_same_v<S, RefQual>)
                         same_item = src[i].v == before[i].v;
                     if (!same_item) fail("lvalue source item " + std::to_string(i) + " was modified");
                 }
